@@ -225,3 +225,99 @@ Proof.
       apply negb_true_iff in A, B0. apply Z.eqb_neq in A, B0. auto.
     + apply andb_true_iff in Hvars as [A B0]. apply negb_true_iff in A, B0. apply Z.eqb_neq in A, B0. auto.
 Qed.
+
+Theorem loop_rotate_h_keeps_ctrace_b h lvl top hd exits todo isback latch sexit ev bv names strict :
+  walk_pre_rot h lvl top hd exits todo isback latch sexit ev bv names = true ->
+  exists nl g1 g1',
+    find h lvl = Some nl /\ collect h (children_h nl) = Some g1 /\
+    loop_rotate g1 hd [hd] exits todo false [] isback latch sexit ev bv names = Ok g1' /\
+    forall n e e' ds,
+      (exists b p, find h n = Some b /\ n_kind b = KOrig p) ->
+      E (Fl ev bv) e e' ->
+      CTrace h (resolve_flat h) strict n e ds ->
+      CTrace (write_back h lvl g1') (resolve_flat (write_back h lvl g1')) strict n e' ds.
+Proof.
+  unfold walk_pre_rot. destruct (find h lvl) as [nl|] eqn:Hl; [|discriminate].
+  intros H. apply andb_true_iff in H as [Hlr H].
+  destruct (collect h (children_h nl)) as [g1|] eqn:HLG; [|discriminate].
+  destruct (loop_rotate g1 hd [hd] exits todo false [] isback latch sexit ev bv names) as [g1'| |] eqn:Hrot; try discriminate.
+  exists nl, g1, g1'. split; [reflexivity|]. split; [exact HLG|]. split; [exact Hrot|].
+  cbv zeta in H.
+  apply andb_true_iff in H as [H Hvars].
+  apply andb_true_iff in H as [H Hevbv].
+  apply andb_true_iff in H as [H Hhdx].
+  apply andb_true_iff in H as [H Hxin].
+  apply andb_true_iff in H as [H Hxnd].
+  apply andb_true_iff in H as [H Hsx].
+  apply andb_true_iff in H as [H Hlt].
+  apply andb_true_iff in H as [H Hltop].
+  apply andb_true_iff in H as [H Hnm].
+  apply andb_true_iff in H as [H HGt].
+  apply andb_true_iff in H as [H Hinjb].
+  apply andb_true_iff in H as [H Hhdl].
+  apply andb_true_iff in H as [H Hnt].
+  apply andb_true_iff in H as [H Hndn].
+  apply andb_true_iff in H as [H Hndt].
+  apply andb_true_iff in H as [H Htodo].
+  apply andb_true_iff in H as [H Hfr].
+  apply andb_true_iff in H as [H Hrn].
+  apply andb_true_iff in H as [H Hkd].
+  apply andb_true_iff in H as [H Hst].
+  apply andb_true_iff in H as [H Hlv].
+  apply andb_true_iff in H as [H Hk'].
+  apply andb_true_iff in H as [H Hf'].
+  destruct (flat_okb_sound h top false H) as [F1 [F2 [F3 [F4 F5]]]].
+  destruct (flat_okb_sound _ top true Hf') as [F1' [F2' [F3' [F4' F5']]]].
+  assert (Hfresh : forall x, In x names \/ x = latch \/ x = sexit -> find h x = None).
+  { intros x Hx. rewrite forallb_forall in Hfr.
+    assert (Hi : In x (names ++ [latch; sexit])).
+    { apply in_or_app. destruct Hx as [Hx|[->| ->]]; [left; exact Hx|right; left; reflexivity|right; right; left; reflexivity]. }
+    specialize (Hfr x Hi). destruct (find h x); [discriminate|reflexivity]. }
+  apply (loop_rotate_h_keeps_ctrace h lvl top hd nl exits todo isback latch sexit ev bv names g1 g1' strict Hl Hlr HLG Hrot
+           F1 F2 F3 F4 F5 F1' F2' F3' F4' F5').
+  - apply nodupb_sound. exact Hk'.
+  - destruct (efind g1' lvl); [discriminate|reflexivity].
+  - intros p Hp E. rewrite forallb_forall in Hst. specialize (Hst p Hp). rewrite E in Hst. discriminate.
+  - intros p b b' Hp Hb Hb'. rewrite forallb_forall in Hkd. specialize (Hkd p Hp). rewrite Hb, Hb' in Hkd.
+    apply ekind_eqb_eq. exact Hkd.
+  - intros x b t Hx Hb Ht. rewrite forallb_forall in Hrn.
+    assert (Hi : In x (todo ++ names ++ [latch; sexit])).
+    { apply in_or_app. destruct Hx as [Hx|[Hx|[->| ->]]]; [left; exact Hx|right; apply in_or_app; left; exact Hx| |];
+        right; apply in_or_app; right; [left|right; left]; reflexivity. }
+    specialize (Hrn x Hi). rewrite Hb in Hrn. rewrite forallb_forall in Hrn. specialize (Hrn t Ht).
+    apply orb_true_iff in Hrn as [Hr|Hr].
+    + left. unfold resolves in Hr. destruct (enter_flat h (S (length h)) t); [discriminate|discriminate].
+    + right. destruct (find h t); [discriminate|reflexivity].
+  - exact Hfresh.
+  - intros p Hp. rewrite forallb_forall in Htodo. specialize (Htodo p Hp).
+    destruct (find h p) as [n|]; [|discriminate]. apply andb_true_iff in Htodo as [Ht1 Ht3]. apply andb_true_iff in Ht1 as [Ht1 Ht2].
+    exists n. split; [reflexivity|]. split; [apply negb_true_iff; exact Ht1|]. split; [exact Ht2|].
+    intros c v t E. rewrite E in Ht3. discriminate.
+  - apply nodupb_sound. exact Hndt.
+  - apply nodupb_sound. exact Hndn.
+  - intros a Ha. rewrite forallb_forall in Hnt. specialize (Hnt a Ha). apply negb_true_iff in Hnt. apply zmem_false in Hnt. exact Hnt.
+  - unfold leafb in Hhdl. destruct (find h hd) as [n|]; [|discriminate]. exists n. split; [reflexivity|apply negb_true_iff; exact Hhdl].
+  - intros a b Ha Hb E. rewrite forallb_forall in Hinjb. specialize (Hinjb a Ha). rewrite forallb_forall in Hinjb. specialize (Hinjb b Hb).
+    apply orb_true_iff in Hinjb as [Hn|Hn]; [apply negb_true_iff in Hn; apply Z.eqb_neq in Hn; contradiction|apply Z.eqb_eq; exact Hn].
+  - intros p Hp. rewrite forallb_forall in HGt. specialize (HGt p Hp). destruct (efind (RL h) p) as [b|]; [|discriminate].
+    repeat (apply andb_true_iff in HGt as [HGt ?]).
+    exists b. split; [reflexivity|]. split; [apply nonbranchb_sound; exact HGt|].
+    split; [destruct (e_be b); [reflexivity|discriminate]|]. split; [apply nodupb_sound; assumption|].
+    intros a Ha. match goal with X : forallb (fun a0 => negb (zmem a0 (e_jt b))) names = true |- _ => rewrite forallb_forall in X; specialize (X a Ha);
+      apply negb_true_iff in X; apply zmem_false in X; exact X end.
+  - intros a Ha. rewrite forallb_forall in Hnm. specialize (Hnm a Ha). repeat (apply andb_true_iff in Hnm as [Hnm ?]).
+    repeat match goal with X : negb (Z.eqb _ _) = true |- _ => apply negb_true_iff in X; apply Z.eqb_neq in X end. auto.
+  - apply negb_true_iff in Hltop, Hlt. apply Z.eqb_neq in Hltop. apply zmem_false in Hlt. auto.
+  - intros Hn. rewrite Hn in Hsx. cbn [negb orb] in Hsx. repeat (apply andb_true_iff in Hsx as [Hsx ?]).
+    repeat match goal with X : negb (Z.eqb _ _) = true |- _ => apply negb_true_iff in X; apply Z.eqb_neq in X end.
+    match goal with X : negb (zmem sexit todo) = true |- _ => apply negb_true_iff in X; apply zmem_false in X end. auto.
+  - split; [apply nodupb_sound; exact Hxnd|]. split.
+    + intros x Hx. rewrite forallb_forall in Hxin. apply zmem_In. apply Hxin. exact Hx.
+    + apply negb_true_iff in Hhdx. apply zmem_false in Hhdx. exact Hhdx.
+  - split; [apply negb_true_iff in Hevbv; apply Z.eqb_neq in Hevbv; exact Hevbv|].
+    intros x b Hb. rewrite forallb_forall in Hvars. unfold efind in Hb. apply zassoc_In in Hb. specialize (Hvars (x, b) Hb).
+    unfold vars_okb in Hvars. cbn [snd] in Hvars. destruct (e_kind b) as [c|a|c v t]; [exact I| |].
+    + intros p Hp. rewrite forallb_forall in Hvars. specialize (Hvars p Hp). apply andb_true_iff in Hvars as [A B0].
+      apply negb_true_iff in A, B0. apply Z.eqb_neq in A, B0. auto.
+    + apply andb_true_iff in Hvars as [A B0]. apply negb_true_iff in A, B0. apply Z.eqb_neq in A, B0. auto.
+Qed.
